@@ -6,6 +6,7 @@ package main
 import (
 	"encoding/json"
 	"fmt"
+	"math/rand"
 	"os"
 	"path/filepath"
 
@@ -13,6 +14,8 @@ import (
 	networking "k8s.io/api/networking/v1"
 	"k8s.io/apimachinery/pkg/util/intstr"
 	"sigs.k8s.io/controller-runtime/pkg/client"
+	gatewayv1 "sigs.k8s.io/gateway-api/apis/v1"
+	gatewayv1alpha2 "sigs.k8s.io/gateway-api/apis/v1alpha2"
 
 	"verif/harness/lib/c06"
 	"verif/harness/lib/world"
@@ -47,7 +50,7 @@ func writeHandMade(dir string) {
 				opts.TCPConfigMap = cm.Namespace + "/" + cm.Name
 			}
 		}
-		c := ocase{objs: c06.Stamp(objs), opts: opts, runs: 12, note: note}
+		c := ocase{objs: c06.Stamp(objs), opts: opts, runs: runsOf(name), note: note}
 		b, _ := json.MarshalIndent(map[string]interface{}{"input": c.encode()}, "", " ")
 		if err := os.WriteFile(filepath.Join(dir, name+".json"), b, 0o644); err != nil {
 			panic(err)
@@ -151,6 +154,32 @@ func writeHandMade(dir string) {
 		}
 		write("16-sort-key-collision", "hand made: ingresses a/bc and ab/c (and abc/c, ab/cc, a/bcc) created in the same second conflict on host, path, TLS secret and app-root: namespace/name order must decide", objs)
 	}
+	// (h) gateway api: routes of one second whose namespace order is opposite to their name order
+	{
+		rng := rand.New(rand.NewSource(7))
+		var objs []client.Object
+		for try := 0; ; try++ {
+			objs = c06.GenGatewaysAdversarial(rng, 3)
+			h, t := 0, 0
+			for _, o := range objs {
+				switch o.(type) {
+				case *gatewayv1.HTTPRoute:
+					h++
+				case *gatewayv1alpha2.TCPRoute:
+					t++
+				}
+			}
+			if h >= 2 && t >= 2 || try > 50 {
+				break
+			}
+		}
+		c := ocase{objs: c06.Stamp(objs), opts: c06.Opts{WatchWithoutClass: true, GatewayV1: true, TCPRouteA2: true}, runs: 12,
+			note: "hand made: HTTPRoutes and TCPRoutes created in the same second (apps/web, billing/api, a/bc, ab/c ...) claim the same hostname + path + match / the same TCP listener through two gateways: creation time then namespace/name must decide"}
+		b, _ := json.MarshalIndent(map[string]interface{}{"input": c.encode()}, "", " ")
+		if err := os.WriteFile(filepath.Join(dir, "17-gateway-routes-same-second.json"), b, 0o644); err != nil {
+			panic(err)
+		}
+	}
 	// (e) one alias requested by four hosts, one of the ingresses also declares the alias as a host
 	{
 		objs := svcs("ns1", "svc1", "svc2", "svc3")
@@ -168,4 +197,12 @@ func writeHandMade(dir string) {
 		i2.Annotations = ann("server-alias", "alias.example", "server-alias-regex", `^al[0-9]+\.example$`)
 		write("14-server-alias-four-hosts", "hand made: server-alias=alias.example (and one alias regex) requested by four hosts of two ingresses with equal creation stamps", append(objs, i1, i2))
 	}
+}
+
+// runsOf: the cases that need a shuffled List answer to show up get more runs.
+func runsOf(name string) int {
+	if name >= "16" {
+		return 12
+	}
+	return 8
 }
